@@ -204,7 +204,7 @@ Qed.
 Definition same_ptrs (s s' : st) : Prop :=
   headp s' = headp s /\ tailp s' = tailp s /\ hsh s' = hsh s /\ d_head s' = d_head s /\ d_tail s' = d_tail s.
 
-Definition del1 (s : st) (id n : N) : st := pend_del (write (write s [WDelH id]) [WDelI n]) n.
+Definition del1 (s : st) (id n : N) : st := pend_del (write s [WDelH id; WDelI n]) n.
 
 Lemma del1_fields s id n :
   pend_h (del1 s id n) = delete n (pend_h s) /\
